@@ -107,6 +107,8 @@ type stens struct {
 	val   int64
 }
 type sgraphCase struct {
+	// warm: a feed that is run once on the same Model before the observed call (history must not matter)
+	warm map[string]stens
 	inputs   []sinput
 	inits    []string
 	initVals map[string]stens
@@ -208,6 +210,16 @@ func (c *sgraphCase) observe() (o string) {
 	for n, v := range c.feed {
 		in[n] = mkSym(v)
 	}
+	if c.warm != nil {
+		w := gonnx.Tensors{}
+		for n, v := range c.warm {
+			w[n] = mkSym(v)
+		}
+		func() {
+			defer func() { recover() }()
+			m.Run(w)
+		}()
+	}
 	out, err := m.Run(in)
 	if err != nil {
 		return "(RError " + ekind(err) + ")"
@@ -249,7 +261,7 @@ func uniq(xs []string) []string {
 func (c *sgraphCase) gallina(obs string) string {
 	var ins []string
 	for _, in := range c.inputs {
-		if in.noShape {
+		if in.noShape || len(in.dims) == 0 { // no shape entry is created for a value info without dims (rank 0 included)
 			ins = append(ins, fmt.Sprintf("(\"%s\", None)", in.name))
 			continue
 		}
